@@ -19,6 +19,7 @@ type AssertSpec struct {
 	Anchor string
 	Occ    int // 0 = every occurrence
 	C      *Clause
+	Update string // non-empty: ghost assignment 'Update = C.Expr' at the anchor instead of an assertion
 }
 
 func parseAssert(text, path string, line int) (*AssertSpec, error) {
@@ -146,6 +147,18 @@ func (f *frame) checkAsserts(ins ssa.Instruction, in string, st *State) {
 				return Val{}, false
 			}
 			return f.lookupVarAt(name, b, ins, st)
+		}
+		if a.Update != "" {
+			g := vc.Eng.Spec.Ghosts[a.Update]
+			if g == nil {
+				vc.unsupported("spec: ghost at %s: unknown ghost variable %s", a.Anchor, a.Update)
+				continue
+			}
+			gt := vc.resolveGhostType(env, g)
+			v := vc.evalSpec(env, a.C.Expr)
+			vn := vc.define(f.prefix+"ghost_"+a.Update, vc.sorts.SortOf(gt), v.T)
+			vc.storeVal(st, vc.ghostLoc(a.Update), gt, vn)
+			continue
 		}
 		t := vc.evalSpec(env, a.C.Expr)
 		vc.oblige("assert", fmt.Sprintf("%s@%d", a.Anchor, occ), in, t.T, fmt.Sprintf("%s:%d", strings.TrimPrefix(a.C.File, "/repo/"), a.C.Line), a.C.Text)
